@@ -325,6 +325,8 @@ class Harness:
         if rs == RunState.STOPPING:
             if not live:
                 return "limbo:STOPPING-worker-gone"
+            if all(w.is_waiting() for w in live) and not any(w.is_running() for w in live):
+                return "limbo:STOPPING-but-worker-waiting"     # parked worker: nobody will write STOPPED
             return "busy"
         if rs in (RunState.STARTING, RunState.STARTED):
             if not live:
